@@ -349,7 +349,7 @@ func laCfg(c *Ctx, rule string) {
 	}
 	for _, p := range u.TC {
 		for _, fld := range []string{"max", "compression"} {
-			if f := rtField(u, p, "ParquetWriter", fld); f != nil {
+			if f := roleField(u, p, "ParquetWriter", fld); f != nil {
 				cfg[f] = strings.TrimPrefix(p, "uni/") + ".ParquetWriter." + fld
 			} else {
 				r.failf("%s: field ParquetWriter.%s not found in %s", rule, fld, p)
